@@ -3,8 +3,8 @@ from vp.kani import Ob
 META = {
     "functions_encoded": ["rlib_rational::Rational::{new,new_int,floor,ceil,norm}", "Add/Sub/Mul/Div (by value, by reference) and assigning forms, Neg",
                           "Ord::cmp, PartialOrd::partial_cmp, derived Eq/PartialEq/Hash", "rlib_gcd::gcd"],
-    "bounds": {"quick": "components |a|,|b|,|c|,|d| <= 7 (i8) and <= 31 (i16, i64), denominators of either sign",
-               "thorough": "adds i32 (<=31) and i128 (<=15)"},
+    "bounds": {"quick": "components |a|,|b|,|c|,|d| <= 7 (i8, i64) and <= 10 (i16), denominators of either sign",
+               "thorough": "adds i32 (<=10) and i128 (<=5)"},
     "outside_claim": ["components up to 2^30 over i64 (Euclid with 64-bit symbolic division)", "overflow behaviour above the threshold", "Display/Debug/Show"],
     "stubs_and_assumes": ["exact value compared by cross-multiplication in a wider integer type", "lowest terms decided by the real gcd (itself decided in C11 on this range)"],
     "assumptions": ["Kani/CBMC translation of MIR is faithful"],
@@ -13,9 +13,9 @@ META = {
 
 def obligations(tier, seed):
     obs = []
-    mods = [("r_i8", "i8, |.|<=7"), ("r_i16", "i16, |.|<=31"), ("r_i64", "i64, |.|<=31")]
+    mods = [("r_i8", "i8, |.|<=7"), ("r_i16", "i16, |.|<=10"), ("r_i64", "i64, |.|<=7")]
     if tier == "thorough":
-        mods += [("r_i32", "i32, |.|<=31"), ("r_i128", "i128, |.|<=15")]
+        mods += [("r_i32", "i32, |.|<=10"), ("r_i128", "i128, |.|<=5")]
     for m, b in mods:
         for h, c, d in (("new_canonical", 2, "new: exact value, positive denominator, lowest terms"),
                         ("add_sub", 2, "+,-: exact, canonical; by-ref and assigning forms identical"),
